@@ -8,6 +8,7 @@ import SoyVerif.Ops.RawText
 import SoyVerif.Ops.Ast
 import SoyVerif.Ops.Parser
 import SoyVerif.Ops.Check
+import SoyVerif.Ops.Writer
 
 open SoyVerif SoyVerif.Ops
 
@@ -15,7 +16,8 @@ def allOps : List Op :=
   Ops.RawText.ops ++
   Ops.Ast.ops ++
   Ops.Parser.ops ++
-  Ops.Check.ops
+  Ops.Check.ops ++
+  Ops.Writer.ops
 
 def handle (op : String) (f : List String) : String :=
   match allOps.find? (·.1 == op) with
